@@ -41,4 +41,4 @@ For each change i = 1..{n} write, under /tmp/seed_{pid.lower()}{wave}/<i>/ :
   - patch.diff : `git diff` of that single change against the worktree's HEAD (apply-able with `git apply` / `patch -p1` at the repo root),
   - demo.py : a small standalone program that exits 0 on the unmodified code and exits non-zero (assert failure) with the change applied, demonstrating the violated property on the specific input it needs,
   - meta.json : {{"property": "{pid}", "summary": ..., "needs_to_manifest": ..., "files": [...], "ran": [commands you ran and their outcome]}}.
-Make each change in the worktree, generate the diff, run the test command and the demo with the change, then `git -C {wt} checkout -- .` to reset before the next one, and run the demo on the clean tree to confirm it passes there. Do not commit anything and NEVER use `git stash` (the stash is shared between all worktrees of the repository and other people are working in theirs; reset with `git checkout -- .` only). Keep it efficient: do not run the full test-suite more often than needed (once per change). Report at the end a short list of the changes, one line each, and mention any property violation you noticed on the UNMODIFIED code.""")
+Make each change in the worktree, generate the diff, run the test command and the demo with the change, then `git -C {wt} checkout -- .` to reset before the next one, and run the demo on the clean tree to confirm it passes there. Do not commit anything and NEVER use `git stash` (the stash is shared between all worktrees of the repository and other people are working in theirs; reset with `git checkout -- .` only). Keep it efficient: do not run the full test-suite more often than needed (once per change). Report at the end a short list of the changes, one line each. SECOND PART (as important as the first): look for violations of the property on the UNMODIFIED code - inputs, parameter regimes, call sequences or histories (second call on the same object, attribute reassigned after construction, object shared by two users, grid whose axes differ, several product dates, dimension 3, bounds exactly on a state, values 0 / infinity) for which the code as it stands breaks a clause of the statement. For each one you can demonstrate, write a standalone reproducer /tmp/seed_{pid.lower()}{wave}/unmodified_<k>.py that exits non-zero on the unmodified code and prints what it observed against what the property requires, and describe it in your report with the concrete numbers.""")
